@@ -38,8 +38,14 @@ func init() { Register("c05conc", c05Conc) }
 
 // ---------- lock monitor
 
+type lockSection struct{ from, to int64 } // wall-clock ns, [lockheld, lockfree]
+
 type lockMon struct {
-	mu      sync.Mutex
+	jitter   *rand.Rand // PRNG sleeps before blocking on a lock (between critical sections)
+	jmu      sync.Mutex
+	sections map[string][]lockSection
+	openSec  map[string]int64 // "gid|lock" -> start
+	mu       sync.Mutex
 	held    map[int64][]string
 	waiting map[int64]string
 	owner   map[string]int64
@@ -49,10 +55,40 @@ type lockMon struct {
 }
 
 func newLockMon() *lockMon {
-	return &lockMon{held: map[int64][]string{}, waiting: map[int64]string{}, owner: map[string]int64{}, edges: map[[2]string]map[string]bool{}, edgeG: map[[2]string]map[int64]bool{}}
+	return &lockMon{sections: map[string][]lockSection{}, openSec: map[string]int64{}, held: map[int64][]string{}, waiting: map[int64]string{}, owner: map[string]int64{}, edges: map[[2]string]map[string]bool{}, edgeG: map[[2]string]map[int64]bool{}}
+}
+
+func (l *lockMon) heldBy(g int64) []string {
+	l.mu.Lock()
+	defer l.mu.Unlock()
+	return append([]string(nil), l.held[g]...)
+}
+
+func (l *lockMon) sectionsOf(name string) []lockSection {
+	l.mu.Lock()
+	defer l.mu.Unlock()
+	r := append([]lockSection(nil), l.sections[name]...)
+	for k, from := range l.openSec {
+		if strings.HasSuffix(k, "|"+name) {
+			r = append(r, lockSection{from, 1 << 62})
+		}
+	}
+	return r
 }
 
 func (l *lockMon) trace(kind, name string, g int64) {
+	if kind == "lockwait" && l.jitter != nil {
+		// a delay between critical sections (never inside one): widens the window between whatever a
+		// writer does before it queues for the lock and the moment it gets it
+		l.jmu.Lock()
+		d := l.jitter.Intn(4)
+		us := l.jitter.Intn(400)
+		l.jmu.Unlock()
+		if d == 0 {
+			time.Sleep(time.Duration(us) * time.Microsecond)
+		}
+	}
+	now := time.Now().UnixNano()
 	l.mu.Lock()
 	defer l.mu.Unlock()
 	l.events++
@@ -87,7 +123,12 @@ func (l *lockMon) trace(kind, name string, g int64) {
 		delete(l.waiting, g)
 		l.held[g] = append(l.held[g], name)
 		l.owner[name] = g
+		l.openSec[fmt.Sprintf("%d|%s", g, name)] = now
 	case "lockfree":
+		if from, ok := l.openSec[fmt.Sprintf("%d|%s", g, name)]; ok {
+			l.sections[name] = append(l.sections[name], lockSection{from, now})
+			delete(l.openSec, fmt.Sprintf("%d|%s", g, name))
+		}
 		hs := l.held[g]
 		for i := len(hs) - 1; i >= 0; i-- {
 			if hs[i] == name {
@@ -225,7 +266,7 @@ func genC05Case(r *rand.Rand, clients, readers, opsPer int) c05Case {
 				ops = append(ops, c05Op{Client: cl, Kind: "batch", DS: []string{c.Datasets[r.Intn(3)]}, IDs: l, Tag: tag})
 			case k < 55:
 				ops = append(ops, c05Op{Client: cl, Kind: "batch", DS: []string{c.Datasets[r.Intn(3)]}, IDs: []string{c05TwinA, c05TwinB}, Tag: tag})
-			case k < 80:
+			case k < 78:
 				// the pair da/db is named in both orders by different clients
 				a, b := "da", "db"
 				if r.Intn(3) == 0 {
@@ -235,6 +276,10 @@ func genC05Case(r *rand.Rand, clients, readers, opsPer int) c05Case {
 					a, b = b, a
 				}
 				ops = append(ops, c05Op{Client: cl, Kind: "txn", DS: []string{a, b}, IDs: []string{c05PairID, ids[r.Intn(len(ids))]}, Tag: tag})
+			case k < 83:
+				// a transaction naming the scratch dataset of another client, which may not exist (any more):
+				// it is refused as a whole and must leave nothing behind, in particular no lock
+				ops = append(ops, c05Op{Client: cl, Kind: "txn", DS: []string{c.Datasets[r.Intn(3)], fmt.Sprintf("tmp%d", r.Intn(clients))}, IDs: []string{ids[r.Intn(len(ids))]}, Tag: tag})
 			case k < 86:
 				ops = append(ops, c05Op{Client: cl, Kind: "mkds", DS: []string{fmt.Sprintf("tmp%d", cl)}, IDs: []string{ids[0]}, Tag: tag})
 			case k < 92:
@@ -250,6 +295,7 @@ func genC05Case(r *rand.Rand, clients, readers, opsPer int) c05Case {
 
 type c05Rec struct {
 	op        c05Op
+	t0, t1    int64 // wall clock around a read (only used to select reads that overlap no critical section)
 	call, ret int64
 	err       string
 	done      bool
@@ -290,9 +336,12 @@ func c05Conc(ctx *Ctx) error {
 
 func runC05Case(ctx *Ctx, c c05Case) {
 	id := outHash(c)
-	prop := "C05"
-	if ctx.Has("C19") && !ctx.Has("C05") {
-		prop = "C19"
+	prop := ctx.Arg("prop", "")
+	if prop == "" {
+		prop = "C05"
+		if ctx.Has("C19") && !ctx.Has("C05") {
+			prop = "C19"
+		}
 	}
 	dir := ctx.NewDir("c05")
 	defer os.RemoveAll(dir)
@@ -302,6 +351,7 @@ func runC05Case(ctx *Ctx, c c05Case) {
 		core.Dsm.CreateDataset(d, nil)
 	}
 	mon := newLockMon()
+	mon.jitter = rand.New(rand.NewSource(ctx.Seed ^ int64(len(c.Ops))))
 	vh.SetLockTracer(mon.trace)
 	defer vh.SetLockTracer(nil)
 
@@ -335,6 +385,9 @@ func runC05Case(ctx *Ctx, c c05Case) {
 				}()
 				rec.ret = now()
 				rec.done = true
+				if h := mon.heldBy(vh.Gid()); len(h) > 0 {
+					fatal.Store(fmt.Sprintf("LOCKLEAK client %d: operation %s on %v returned (err=%q) while still holding %v", cl, op.Kind, op.DS, rec.err, h))
+				}
 				atomic.AddInt64(&progress, 1)
 			}
 		}(cl)
@@ -367,6 +420,13 @@ loop:
 				ctx.Out.FlushStats()
 				ctx.Out.Close()
 				os.Exit(0) // goroutines are stuck for good; the verdict is recorded
+			}
+			if f := fatal.Load(); f != nil && idle >= 6 && strings.HasPrefix(f.(string), "LOCKLEAK") {
+				ctx.Out.Case(id, ctx.Seed, c, true, []string{"lock-leaked"})
+				ctx.Out.Viol(id, prop, "lock-leaked-by-returned-operation", f.(string)+"; the other clients are blocked on it", nil, nil, nil)
+				ctx.Out.FlushStats()
+				ctx.Out.Close()
+				os.Exit(0)
 			}
 			if idle >= 120 {
 				stalled = true
@@ -403,7 +463,17 @@ loop:
 	ctx.Out.Stat("lock_events", mon.events)
 	ctx.Out.Stat("lock_order_edges", int64(len(mon.edges)))
 	if f := fatal.Load(); f != nil {
-		ctx.Out.Viol(id, prop, "panic", f.(string), nil, nil, nil)
+		cls := "panic"
+		if strings.HasPrefix(f.(string), "LOCKLEAK") {
+			cls = "lock-leaked-by-returned-operation"
+		}
+		ctx.Out.Viol(id, prop, cls, f.(string), nil, nil, nil)
+	}
+	if prop == "C01" || prop == "C05" || prop == "C06" {
+		c05FinalState(ctx, id, prop, core, c)
+	}
+	if prop == "C06" {
+		c05AsOfReads(ctx, id, core, c, recs, mon)
 	}
 	if prop == "C05" {
 		for _, cyc := range mon.orderCycles() {
@@ -483,7 +553,9 @@ func c05Do(core *hub.Core, op c05Op, rec *c05Rec, visMu *sync.Mutex, vis *[]stri
 			}
 		}
 	case "lookup":
+		rec.t0 = time.Now().UnixNano()
 		r, err := obs.Lookup(st, op.IDs[0], op.DS)
+		rec.t1 = time.Now().UnixNano()
 		if err != nil {
 			rec.err = err.Error()
 			return
@@ -768,4 +840,90 @@ func c05Counters(ctx *Ctx, id string, core *hub.Core, prop string) {
 		ctx.Out.Stat("c19_concurrent_counters_compared", 1)
 	}
 	_ = server.StorageIDFileName
+}
+
+// c05FinalState: at the final quiescent point every read path agrees on what the last write was:
+// the dataset's feed is in commit order and its recorded times never go backwards, and the scoped
+// lookup of every entity returns the last feed entry of that entity (as the listing does).
+func c05FinalState(ctx *Ctx, id, prop string, core *hub.Core, c c05Case) {
+	st := core.Store
+	for _, d := range c.Datasets {
+		ds := core.Dsm.GetDataset(d)
+		feed, _, err := obs.Feed(st, ds, 0, nil, false)
+		if err != nil {
+			continue
+		}
+		lastOf := map[string]*obs.Rec{}
+		for i := range feed {
+			if i > 0 && feed[i].Recorded < feed[i-1].Recorded {
+				ctx.Out.Viol(id, prop, "commit-order-vs-recorded-time", fmt.Sprintf("dataset %s: feed entry %d (write %s) was committed after entry %d (write %s) but carries an earlier recorded time (%d < %d): queries as of an instant between the two change their answer, and lookups pick a different latest version than the listing", d, i, tagOf(&feed[i]), i-1, tagOf(&feed[i-1]), feed[i].Recorded, feed[i-1].Recorded), nil, nil, nil)
+				break
+			}
+		}
+		for i := range feed {
+			lastOf[feed[i].ID] = &feed[i]
+		}
+		n := 0
+		for u, f := range lastOf {
+			r, err := obs.Lookup(st, u, []string{d})
+			if err != nil {
+				continue
+			}
+			n++
+			if r == nil || tagOf(r) != tagOf(f) {
+				ctx.Out.Viol(id, prop, "lookup-vs-last-write", fmt.Sprintf("dataset %s: scoped lookup of %s returns write %q, the last committed write of that entity is %q", d, u, tagOf(r), tagOf(f)), tagOf(f), tagOf(r), nil)
+				break
+			}
+		}
+		ctx.Out.Stat("final_lookups_vs_feed", int64(n))
+	}
+}
+
+// c05AsOfReads (C06 under concurrency): a scoped lookup whose call interval overlaps no critical
+// section of its dataset (lock hooks, wall clock only used for this selection) saw a stable state;
+// the as-of lookup at the beginning and at the end of that interval must return the same write.
+func c05AsOfReads(ctx *Ctx, id string, core *hub.Core, c c05Case, recs [][]*c05Rec, mon *lockMon) {
+	st := core.Store
+	iids := map[string]uint64{}
+	for _, d := range c.Datasets {
+		l, _ := obs.Listing(st, core.Dsm.GetDataset(d), 0)
+		for _, r := range l {
+			iids[r.ID] = r.InternalID
+		}
+	}
+	judged, skipped := 0, 0
+	for _, rs := range recs {
+		for _, r := range rs {
+			if r.op.Kind != "lookup" || r.err != "" || r.t0 == 0 {
+				continue
+			}
+			d := r.op.DS[0]
+			overlap := false
+			for _, sec := range mon.sectionsOf("ds:" + d) {
+				if sec.from <= r.t1+2000 && sec.to >= r.t0-2000 {
+					overlap = true
+					break
+				}
+			}
+			iid, ok := iids[r.op.IDs[0]]
+			if overlap || !ok {
+				skipped++
+				continue
+			}
+			judged++
+			for _, at := range []int64{r.t0, r.t1} {
+				e, err := st.GetEntityAtPointInTimeWithInternalID(iid, at, st.DatasetsToInternalIDs([]string{d}), true)
+				if err != nil || e == nil {
+					continue
+				}
+				got := obs.Canon(st, e)
+				if tagOf(&got) != r.seen {
+					ctx.Out.Viol(id, "C06", "asof-differs-from-read-outside-critical-sections", fmt.Sprintf("dataset %s entity %s: a lookup that overlapped no write critical section of the dataset returned write %q; the lookup as of that instant now returns %q (a write was stamped with a time before it became visible)", d, r.op.IDs[0], r.seen, tagOf(&got)), r.seen, tagOf(&got), nil)
+					return
+				}
+			}
+		}
+	}
+	ctx.Out.Stat("c06_concurrent_reads_judged", int64(judged))
+	ctx.Out.Stat("c06_concurrent_reads_overlapping_a_write", int64(skipped))
 }
